@@ -35,7 +35,9 @@ pub fn replay_dfs<H: Harness + ?Sized>(h: &H, v: &Value) -> Replayed {
     let (trace, verdict) = xplore::replay(h, budget, &choices);
     // run it a second time: a counterexample must be reproducible
     let (trace2, verdict2) = xplore::replay(h, budget, &choices);
-    let same = trace == trace2
+    // heap addresses quoted in a trace (C11) differ from run to run: they are masked for the comparison
+    let mask = |t: &[String]| -> Vec<String> { t.iter().map(|l| mask_addresses(l)).collect() };
+    let same = mask(&trace) == mask(&trace2)
         && match (&verdict, &verdict2) {
             (Ok(Verdict::Pass(a)), Ok(Verdict::Pass(b))) => a == b,
             (Ok(Verdict::Fail(a)), Ok(Verdict::Fail(b))) => a.class == b.class,
@@ -51,4 +53,34 @@ pub fn replay_dfs<H: Harness + ?Sized>(h: &H, v: &Value) -> Replayed {
         Err(e) if e.starts_with("BUG: ") => Replayed::Error(e),
         Err(e) => Replayed::Fail { trace, class: xplore::panic_class(&e), detail: e },
     }
+}
+
+/// Replace every `0x` followed by six or more hex digits by `0xADDR`.
+pub fn mask_addresses(line: &str) -> String {
+    let b = line.as_bytes();
+    let mut out = String::with_capacity(line.len());
+    let mut i = 0;
+    while i < b.len() {
+        if b[i] == b'0' && i + 1 < b.len() && b[i + 1] == b'x' {
+            let mut j = i + 2;
+            while j < b.len() && b[j].is_ascii_hexdigit() {
+                j += 1;
+            }
+            if j - (i + 2) >= 6 {
+                out.push_str("0xADDR");
+                i = j;
+                continue;
+            }
+        }
+        // copy one UTF-8 character
+        let ch_len = match b[i] {
+            x if x < 0x80 => 1,
+            x if x >= 0xf0 => 4,
+            x if x >= 0xe0 => 3,
+            _ => 2,
+        };
+        out.push_str(&line[i..(i + ch_len).min(line.len())]);
+        i += ch_len;
+    }
+    out
 }
